@@ -617,3 +617,149 @@ Proof.
   - unfold m. rewrite (sum_select (route_cost (pg st)) [] (proutes st) _ Hb).
     unfold total_cost. symmetry. apply sumZ_map_perm; exact Hperm.
 Qed.
+
+(* ====================================================================== *)
+(* 8. the customers of a partition (shared by the arc and sequence corollaries) *)
+(* ====================================================================== *)
+Lemma count_occ_NoDup_01 (l : list nat) k : NoDup l ->
+  Z.of_nat (count_occ Nat.eq_dec l k) = if memb k l then 1 else 0.
+Proof.
+  intros Hnd. pose proof (proj1 (NoDup_count_occ Nat.eq_dec l) Hnd k) as Hle.
+  destruct (memb k l) eqn:E.
+  - apply memb_In in E. apply (count_occ_In Nat.eq_dec) in E. lia.
+  - apply memb_false_notIn in E. apply (count_occ_not_In Nat.eq_dec) in E. lia.
+Qed.
+
+Lemma memb_interior st r k : valid_route st r -> k <> O -> memb k r = memb k (interior r).
+Proof.
+  intros Hv Hk. rewrite (valid_route_shape st r Hv) at 1.
+  destruct (memb k (interior r)) eqn:E.
+  - apply memb_In. right. apply in_or_app. left. apply memb_In; exact E.
+  - apply memb_false_notIn. apply memb_false_notIn in E.
+    intros [H|H]; [congruence|]. apply in_app_or in H. destruct H as [H|[H|[]]]; [auto|congruence].
+Qed.
+
+Lemma on_route_interior st r k : valid_route st r -> k <> O ->
+  on_route k r = Z.of_nat (count_occ Nat.eq_dec (interior r) k).
+Proof.
+  intros Hv Hk. unfold on_route. rewrite (memb_interior st r k Hv Hk).
+  symmetry. apply count_occ_NoDup_01. apply Hv.
+Qed.
+
+Lemma visits_count st R k : Forall (valid_route st) R -> k <> O ->
+  visits R k = Z.of_nat (count_occ Nat.eq_dec (served R) k).
+Proof.
+  intros HR Hk. unfold visits, served. induction HR as [|r R Hr _ IH]; [reflexivity|].
+  cbn [map concat]. rewrite sumZ_cons, count_occ_app, Nat2Z.inj_add, IH.
+  rewrite (on_route_interior st r k Hr Hk). reflexivity.
+Qed.
+
+Lemma interior_customers st r x : Inv (pg st) -> valid_route st r -> In x (interior r) ->
+  In x (seq 1 (num_nodes st - 1)).
+Proof.
+  intros HI Hv Hx. pose proof (valid_route_in_range st r HI Hv) as Hr.
+  unfold in_range in Hr. rewrite Forall_forall in Hr. pose proof (Hr x (In_interior r x Hx)) as Hlt.
+  destruct Hv as (_ & _ & _ & _ & H0 & _). apply in_seq. unfold num_nodes.
+  assert (x <> O) by (intros ->; contradiction). lia.
+Qed.
+
+Lemma served_customers st R x : Inv (pg st) -> Forall (valid_route st) R -> In x (served R) ->
+  In x (seq 1 (num_nodes st - 1)).
+Proof.
+  intros HI HR Hx. unfold served in Hx. apply in_concat in Hx. destruct Hx as (l & Hl & Hx).
+  apply in_map_iff in Hl. destruct Hl as (r & <- & Hr). rewrite Forall_forall in HR.
+  eapply interior_customers; eauto.
+Qed.
+
+Theorem partition_served st R : Inv (pg st) -> partition st R ->
+  (forall k, (1 <= k < num_nodes st)%nat -> count_occ Nat.eq_dec (served R) k = 1%nat) /\
+  NoDup (served R) /\ Permutation (served R) (seq 1 (num_nodes st - 1)).
+Proof.
+  intros HI (Hnd & Hv & Hvis).
+  assert (Hc : forall k, (1 <= k < num_nodes st)%nat -> count_occ Nat.eq_dec (served R) k = 1%nat).
+  { intros k Hk. pose proof (Hvis k Hk) as H1. rewrite (visits_count st R k Hv) in H1 by lia. lia. }
+  assert (Hnd2 : NoDup (served R)).
+  { apply (NoDup_count_occ Nat.eq_dec). intros x.
+    destruct (in_dec Nat.eq_dec x (served R)) as [Hin|Hout].
+    - pose proof (served_customers st R x HI Hv Hin) as Hs. apply in_seq in Hs. rewrite Hc by lia. lia.
+    - apply (count_occ_not_In Nat.eq_dec) in Hout. lia. }
+  split; [exact Hc|]. split; [exact Hnd2|].
+  apply NoDup_Permutation; [exact Hnd2|apply seq_NoDup|].
+  intros x. split; [apply served_customers; assumption|].
+  intros Hs. apply in_seq in Hs. apply (count_occ_In Nat.eq_dec). rewrite Hc by lia. lia.
+Qed.
+
+Lemma interior_nonempty st r : no_depot_loop st -> valid_route st r -> interior r <> [].
+Proof.
+  intros Hl Hv E. pose proof (valid_route_shape st r Hv) as Es. rewrite E in Es. cbn [app] in Es.
+  destruct Hv as (_ & _ & _ & _ & _ & Ha & _). rewrite Es in Ha. cbn [tl arcs_exist] in Ha.
+  unfold no_depot_loop in Hl. destruct Ha as [Ha _]. congruence.
+Qed.
+
+Lemma length_concat_nonempty {A} (ls : list (list A)) :
+  Forall (fun l => l <> []) ls -> (length ls <= length (concat ls))%nat.
+Proof.
+  induction 1 as [|l ls Hl _ IH]; [simpl; lia|]. cbn [concat length]. rewrite app_length.
+  destruct l; [congruence|simpl; lia].
+Qed.
+
+Theorem partition_sizes st R : Inv (pg st) -> no_depot_loop st -> partition st R ->
+  (length R <= num_nodes st - 1)%nat /\
+  Forall (fun r => interior r <> [] /\ (length (interior r) <= num_nodes st - 1)%nat) R.
+Proof.
+  intros HI Hl HR. destruct (partition_served st R HI HR) as (_ & Hnd & Hperm).
+  destruct HR as (_ & Hv & _).
+  assert (Hlen : length (served R) = (num_nodes st - 1)%nat)
+    by (rewrite (Permutation_length Hperm), seq_length; reflexivity).
+  split.
+  - rewrite <- Hlen. unfold served. rewrite <- (map_length interior R) at 1.
+    apply length_concat_nonempty. apply Forall_forall. intros l Hin. apply in_map_iff in Hin.
+    destruct Hin as (r & <- & Hr). rewrite Forall_forall in Hv. apply (interior_nonempty st r Hl), Hv, Hr.
+  - apply Forall_forall. intros r Hr. rewrite Forall_forall in Hv. pose proof (Hv r Hr) as Hvr.
+    split; [apply (interior_nonempty st r Hl Hvr)|].
+    assert (Hincl : incl (interior r) (seq 1 (num_nodes st - 1)))
+      by (intros x Hx; eapply interior_customers; eauto).
+    pose proof (NoDup_incl_length (proj1 (proj2 (proj2 (proj2 Hvr)))) Hincl) as H. rewrite seq_length in H. exact H.
+Qed.
+
+(* ====================================================================== *)
+(* 9. duplicate-free lists of lists                                        *)
+(* ====================================================================== *)
+Lemma NoDup_app_disjoint {A} (l m : list A) x : NoDup (l ++ m) -> In x l -> ~ In x m.
+Proof.
+  induction l as [|a l IH]; simpl; [tauto|]. intros H [->|Hin] Hm.
+  - inversion H as [|? ? Hn _]; subst. apply Hn. apply in_or_app; right; exact Hm.
+  - inversion H; subst. eapply IH; eauto.
+Qed.
+
+Lemma NoDup_app_tail {A} (l m : list A) : NoDup (l ++ m) -> NoDup m.
+Proof. induction l as [|a l IH]; simpl; [tauto|]. intros H. inversion H; subst. auto. Qed.
+
+Lemma NoDup_of_concat {A} (ls : list (list A)) :
+  NoDup (concat ls) -> Forall (fun l => l <> []) ls -> NoDup ls.
+Proof.
+  induction ls as [|l ls IH]; intros Hnd Hne; [constructor|].
+  inversion Hne as [|? ? Hl Hls]; subst. cbn [concat] in Hnd. constructor.
+  - intros Hin. destruct l as [|x l]; [congruence|].
+    apply (NoDup_app_disjoint _ _ x Hnd); [left; reflexivity|].
+    apply in_concat. exists (x :: l). split; [exact Hin|left; reflexivity].
+  - apply IH; [|exact Hls]. eapply NoDup_app_tail; eauto.
+Qed.
+
+
+Lemma NoDup_map_injective {A B} (f : A -> B) (l : list A) :
+  (forall a b, f a = f b -> a = b) -> NoDup l -> NoDup (map f l).
+Proof.
+  intros Hinj. induction 1 as [|a l Hn _ IH]; [constructor|]. cbn [map]. constructor; [|exact IH].
+  intros Hin. apply in_map_iff in Hin. destruct Hin as (b & E & Hb). apply Hinj in E. subst b. contradiction.
+Qed.
+
+(* ====================================================================== *)
+(* 10. capacity that cannot bind                                           *)
+(* ====================================================================== *)
+Lemma capacity_free_zero_demands st :
+  (forall j, ndemand (Path.node_at (pg st) j) = 0) -> 0 <= pinit st <= pcap st -> capacity_free st.
+Proof.
+  intros Hd Hi rest. generalize (pinit st) Hi. induction rest as [|j rest IH]; intros l Hl; [constructor|].
+  cbn [loads]. rewrite Hd. replace (l - 0) with l by lia. constructor; [exact Hl|apply IH; exact Hl].
+Qed.
